@@ -18,7 +18,7 @@ def run(tier, seed):
     hc = hcommon.HandlerCheck(PROP, tier, seed)
     hc.gate()
     n_success_checks = 0
-    for case in sysprops.c01_cases(tier, hc.rng):
+    for case in hcommon.share(sysprops.c01_cases(tier, hc.rng)):
         case.run()
         fail = sysprops.check_c01(case)
         n_success_checks += len(case.success_checks)
